@@ -47,7 +47,7 @@ theorem offers_append_notOffer : ∀ (new old : List LogItem), (∀ i ∈ new, N
     | unhandled => simpa [offers] using hr
 
 theorem Off.of_ext {st st' : St} (h : Ext NotOffer st st') : Off st st' [] := by
-  obtain ⟨new, e, p⟩ := h
+  obtain ⟨⟨new, e, p⟩, _⟩ := h
   simp [Off, offWins, e, offers_append_notOffer new st.log p]
 
 theorem Off.say_offer (st : St) (k : Kind) (w : WinTree.Id) (e : Ev) (b : Bool) : Off st (st.say (.offer k w e b)) [w] := by
@@ -80,6 +80,19 @@ theorem Conf.entry {A : Aff} {t0 : Tree} {binds : Array Binding} (hs : Conf A t0
 
 theorem Conf.bump {A : Aff} {t0 : Tree} {binds : Array Binding} (hs : Conf A t0 binds) {i : Nat} {b : Binding}
     (h : binds[i]? = some b) (k : Nat) : Conf A t0 (binds.setIfInBounds i { b with count := k }) := by
+  intro j x hx e he
+  rw [Array.getElem?_setIfInBounds] at hx
+  by_cases hij : i = j
+  · subst hij
+    simp only [if_true] at hx
+    split at hx
+    · cases hx; exact hs i b h e he
+    · cases hx
+  · simp only [hij, if_false] at hx
+    exact hs j x hx e he
+
+theorem Conf.fired {A : Aff} {t0 : Tree} {binds : Array Binding} (hs : Conf A t0 binds) {i : Nat} {b : Binding}
+    (h : binds[i]? = some b) : Conf A t0 (binds.setIfInBounds i b.fired) := by
   intro j x hx e he
   rw [Array.getElem?_setIfInBounds] at hx
   by_cases hij : i = j
@@ -198,14 +211,18 @@ theorem DInv.bindings {A : Aff} {t0 : Tree} {held : List WinTree.Id} (hi0 : TInv
     | none => simp only [hb] at hr; exact ih _ _ _ h hr
     | some b =>
       simp only [hb] at hr
+      by_cases hg : b.gone = true
+      · simp only [hg, if_true] at hr; exact ih _ _ _ h hr
+      simp only [hg, Bool.false_eq_true, if_false] at hr
       obtain ⟨st1, h1, hr⟩ := res_bind_eq_ok.1 hr
-      have d0 : DInv A t0 held (({ st with binds := st.binds.setIfInBounds bi { b with count := b.count + 1 } } : St).say
+      have d0 : DInv A t0 held (({ st with binds := st.binds.setIfInBounds bi b.fired } : St).say
           (.call kind win b.idx (entryIndex b) b.entry.ret ev)) :=
         ⟨⟨⟨h.good.1.tree, h.good.1.drag, h.good.1.size, h.good.1.rc, h.good.1.leaf, h.good.1.held, h.good.1.root, h.good.1.pos⟩,
-          tableOK_all _⟩, h.sim, h.conf.bump hb _, h.own⟩
-      have o0 : Off st (({ st with binds := st.binds.setIfInBounds bi { b with count := b.count + 1 } } : St).say
+          tableOK_all _⟩, h.sim, h.conf.fired hb, h.own⟩
+      have o0 : Off st (({ st with binds := st.binds.setIfInBounds bi b.fired } : St).say
           (.call kind win b.idx (entryIndex b) b.entry.ret ev)) [] :=
-        Off.of_ext ((Ext.of_log (st' := { st with binds := _ }) rfl).trans (Ext.say _ trivial))
+        Off.of_ext (Ext.trans (b := { st with binds := st.binds.setIfInBounds bi b.fired })
+          ⟨⟨[], rfl, by simp⟩, BMono.fired hb (by simpa using hg)⟩ (Ext.say _ trivial))
       obtain ⟨d1, o1⟩ := DInv.actions hi0 _ _ _ d0 (h.conf.entry hb) h1
       by_cases hret : b.entry.ret = true
       · simp only [hret, if_true, res_pure, Res.ok.injEq, Prod.mk.injEq] at hr
